@@ -103,13 +103,15 @@ let finish_case (out : string list) =
   let agrees = model_agrees m impl idefs in
   let obs = Printf.sprintf "%s case=%s%s text=%s" !cur_mode !cur_n
       (String.concat "" (List.map (fun s -> " " ^ s) !cur_extra)) !cur_text in
+  let key = Printf.sprintf "%s case=%s%s len=%d md5=%s" !cur_mode !cur_n
+      (String.concat "" (List.map (fun s -> " " ^ s) !cur_extra)) len (Digest.to_hex (Digest.string !cur_text)) in
   let model_info =
     Printf.sprintf "impl=%s model=%s impl-vs-model-defs=%s" (string_of_impl impl) (string_of_model m)
       (diff_defs idefs (model_defs m)) in
   let in_input p = let o = int_of_z p.p_offset in 0 <= o && o <= len in
   (match !cur_mode with
    | "c04" ->
-       note_case ~nontrivial:(xdefs <> []) "c04-file" obs;
+       note_case ~nontrivial:(xdefs <> []) "c04-file" key;
        List.iter (fun d -> note_case ~nontrivial:false ("c04-def-" ^ def_name d) "") xdefs;
        let clause =
          if impl <> IOk then Some ("parse of a well-formed text did not succeed: " ^ string_of_impl impl)
@@ -125,7 +127,7 @@ let finish_case (out : string list) =
    | "c12a" ->
        let start = match !cur_extra with _ :: s :: _ -> int_of_z (z_of_hex s) | _ -> failwith "c12a extra" in
        let op = match !cur_extra with [ _; _; o ] -> o | _ -> "?" in
-       note_case ("c12a-" ^ op) obs;
+       note_case ("c12a-" ^ op) key;
        let clause =
          match impl with
          | IPanic -> Some "parser panicked"
@@ -146,7 +148,7 @@ let finish_case (out : string list) =
    | "c12b" ->
        let kind = match !cur_extra with [ k ] -> k | _ -> "?" in
        note_case ~nontrivial:(match impl with IErr _ -> true | _ -> idefs <> []) ("c12b-" ^ kind ^ "-" ^
-                                                                                   (match impl with IOk -> "ok" | IErr _ -> "err" | IPanic -> "panic" | IHang -> "hang")) obs;
+                                                                                   (match impl with IOk -> "ok" | IErr _ -> "err" | IPanic -> "panic" | IHang -> "hang")) key;
        let clause =
          match impl with
          | IPanic -> Some "parser panicked"
